@@ -32,6 +32,9 @@ func CheckC02(sc Scenario, rec *Rec) error {
 			if len(pop.Species) >= 2 {
 				rec.Class("turnover starting with several species")
 			}
+			if sc.Fit.Scale >= 1e300 {
+				rec.Class("fitness values whose sum overflows")
+			}
 			old := 0
 			for _, sp := range pop.Species {
 				if sp.Age > 5 {
@@ -61,7 +64,7 @@ func CheckC02(sc Scenario, rec *Rec) error {
 }
 
 func TestC02(t *testing.T) {
-	runProp(t, "C02", "epochs", 500, 10000, genScenario(ScenarioCfg{MaxEpochs: pick(25, 60), Parallel: 1}), CheckC02)
+	runProp(t, "C02", "epochs", 500, 10000, genScenario(ScenarioCfg{MaxEpochs: pick(25, 60), Parallel: 1, HugeFitness: true}), CheckC02)
 }
 
 func init() { registerReplay("C02", "epochs", CheckC02) }
